@@ -135,7 +135,7 @@ def VS2():
        Base <- Mid <- {C, D};  edges: Base.link -> Base ; Mid.up -> Base (recursing from Mid needs coercion back to Mid: case 'origin');
        C.toMid -> Mid (C ⊑ Mid: recursing C.toMid yields Mid vertices; deeper levels need Mid.toMid? no: handled as error)"""
     base = dict(props={"id": "Int!", "val": "Int", "name": "String"}, edges={"link": {"to": "Base"}})
-    mid = _merge(base, props={"m": "Int"}, edges={"sub": {"to": "Mid"}, "toC": {"to": "C"}})
+    mid = _merge(base, props={"m": "Int"}, edges={"sub": {"to": "Mid"}, "toC": {"to": "C"}, "up": {"to": "Base"}})
     types = {
         "Base": dict(kind="interface", **_merge(base)),
         "Mid": dict(kind="interface", implements=["Base"], **mid),
